@@ -14,7 +14,7 @@ CLAIMED = {
     'C11': ('proof', 'Every TokenCategoryHierarchyMapper query and the TokenCategory delegates are verified against the tree documented in README.md: recursive helpers per '
                      'sub-dictionary of the extracted literal, categories symbolic over the enum, include/exclude as symbolic bit-sets (all 2^37 x 2^37 pairs) in every argument shape.', '4.11'),
     'C16': ('proof', 'import_pitch / _parse_pitch / export_pitch and the two round-trip lemmas plus the double-export lemma over run-length strings with symbolic repetition counts '
-                     '(every octave, |alteration| <= 3); frame obligations on every heap write prove that exporting does not alter the pitch.', '4.16'),
+                     '(every octave, |alteration| <= 3); frame obligations on every heap write prove that exporting does not alter the pitch; the history lemma import_twice proves that an importer object used again neither changes a pitch it handed out earlier nor answers differently from a new one.', '4.16'),
 }
 
 PENDING = {}
